@@ -40,7 +40,8 @@ def obligations(res):
         "an implementation error (exception) is accepted where the model would copy / re-fuzz a field with arguments: the implementation needs "
         "converter generators to re-derive arguments and raises FandangoValueError without them (loud, state unchanged)",
         "end-to-end: every individual evaluated during real fuzz() runs and every emitted solution must have all its generator fields in the log "
-        "written by the generator functions themselves",
+        "written by the generator functions themselves -- or, for a deterministic generator, carry exactly the value the function yields for the "
+        "arguments recorded with the field (converter generators derive arguments from an adopted text without calling the generator)",
     ]
 
 
@@ -475,6 +476,7 @@ def e2e_worker(args):
         w.grammar = g
         w.gens = gens
         w.e2e = True
+        env_funcs = expected_table()
         seen, observed = set(), []
         orig = Evaluator.evaluate_individual
 
@@ -520,7 +522,25 @@ def e2e_worker(args):
             eterm = coq_list([f"({coq_string(n_)}, {args_term(a)}, {text_term(v)})" for n_, a, v in es])
             terms.append(f"({eterm}, {ind_term(fs)})")
             eset = set(entries)
-            nil = [(f[0], str(f[1]), f[2], any(e[0] == f[0] and e[2] == f[2] for e in entries)) for f in fs if (f[0], tuple(f[1]), f[2]) not in eset]
+
+            def consistent(f):
+                """the generator function, evaluated by the harness on the recorded arguments, yields exactly this text
+                (a deterministic generator whose arguments were derived from the text by a converter: no call was logged)"""
+                fn, params = gens[f[0]]
+                if fn == "pick":
+                    return False
+                try:
+                    d = dict(f[1])
+                    return env_funcs[fn](*[d[p_] for p_ in params]) == f[2]
+                except Exception:
+                    return False
+            nil = [(f[0], str(f[1]), f[2], any(e[0] == f[0] and e[2] == f[2] for e in entries)) for f in fs
+                   if (f[0], tuple(f[1]), f[2]) not in eset and not consistent(f)]
+            if any((f[0], tuple(f[1]), f[2]) not in eset and consistent(f) for f in fs):
+                res.bump("fields_not_logged_but_equal_to_generator_value_for_recorded_arguments")
+                es = entries + [(f[0], tuple(f[1]), f[2]) for f in fs if consistent(f)]
+                eterm = coq_list([f"({coq_string(n_)}, {args_term(a)}, {text_term(v)})" for n_, a, v in es if n_ in nts])
+                terms[-1] = f"({eterm}, {ind_term(fs)})"
             infos.append({"spec": gtxt + "".join(f"where {c}\n" for c in cons), "individual": txt, "what": what, "fields": [list(map(str, f)) for f in fs],
                           "not_in_log": nil})
             res.count(("inlog", txt, tuple(cons)), nontrivial=True)
